@@ -107,6 +107,17 @@ CLAIMS = {
               "model by exact equality of points (x, y, -z), connectivity, point data (traveltimes, reordered sign-flipped "
               "gradients) and cell data on non-cubic shapes, unequal/decimal spacings, non-zero origins, several grids in "
               "any argument order, and 1..5 rays.")),
+    "C16": dict(
+        category="proof", design_ref="DESIGN.md §8 C16",
+        technique="Lean 4 theorems about the object-layer state machine (spacing/extent arithmetic, sigma units, solve-after-edit, convexity of the linear resampling model) + differential runs with SciPy arguments captured",
+        text=("Proved: new spacing x new cell count = old spacing x old cell count per axis (reals); resample gives the "
+              "requested shape and keeps the origin; smooth leaves shape/spacing/origin and hands sigma/spacing to the "
+              "filter, which is invariant under a change of length unit; a solve after either operation uses the edited "
+              "model; with the linear interpolant modelled by the package's own bilinear interpolation (C14) resampled "
+              "values stay within the range of the node values. SciPy's interpolator and filter are parameters of the "
+              "model; the running code is checked on sequences of resample/smooth/solve (geometry, extent, the sigma "
+              "that reaches gaussian_filter, value range, constants, monotone profiles, unit-change pairs, and the "
+              "following solve against a fresh object).")),
 }
 
 WIP = "check not registered yet in this revision (model/theorems under construction); see DESIGN.md §8"
